@@ -15,11 +15,17 @@
      the rule gives a walrus target to its comprehension, to every enclosing comprehension and to the nearest
      function-like scope;
    - without walrus targets every node of the tree is assigned to exactly one scope (the scope walks partition it).
+   - (models/Symbols.v: the classification half of scope_symbols over the events - load / store / del / global / nonlocal /
+     walrus-target-of-a-comprehension-root - that the nodes of the scope contribute in walk order; tied to
+     scope_symbols(full=True) by correspondence of all seven dictionaries, keys in order) for a function-like scope
+     'free' is exactly the compiler's "used, not bound, not declared", 'local' is the compiler's local minus the names
+     that are only deleted (documented), no name is both local and free, a declared name is neither; a walrus target of a
+     comprehension root is stored but never local to the comprehension and is reported free unless bound there otherwise.
    NOT PROVED: that CPython's symbol table follows the same rule (the oracle compares scope_symbols with the symtable
    module for every scope), the per-node-class split into outer/inner parts used by the encoder (it is the property's
-   own list), name classification. Decided by py/props/C16.py (partial). *)
+   own list), which event a node class contributes (re-derived by the harness). Decided by py/props/C16.py (partial). *)
 From Coq Require Import List Bool Arith.
-From PF Require Import models.Scope proofs.ScopeProofs.
+From PF Require Import models.Scope proofs.ScopeProofs models.Symbols proofs.SymbolsProofs.
 Import ListNotations.
 
 Theorem C16_scope_walk_is_the_rule : forall i comp w outer inner above x,
@@ -35,6 +41,30 @@ Theorem C16_one_scope_per_node : forall t cur above x,
   (forall c c', In (x, c) (assign (cur :: above) t) -> In (x, c') (assign (cur :: above) t) -> c = c').
 Proof. exact one_scope_per_node. Qed.
 Print Assumptions C16_one_scope_per_node.
+
+Theorem C16_free_is_the_compilers_free : forall evs n, no_walrus_ev evs ->
+  (In n (s_free (classify false evs)) <-> py_free n evs).
+Proof. exact free_is_compilers_free. Qed.
+Print Assumptions C16_free_is_the_compilers_free.
+
+Theorem C16_local_is_the_compilers_local_minus_deleted_only : forall evs n, no_walrus_ev evs ->
+  (In n (s_local (classify false evs)) <-> occurs KStore n evs /\ ~ declared n evs) /\
+  (py_local n evs <-> In n (s_local (classify false evs)) \/ (occurs KDel n evs /\ ~ occurs KStore n evs /\ ~ declared n evs)).
+Proof. exact local_is_compilers_local_but_del_only. Qed.
+Print Assumptions C16_local_is_the_compilers_local_minus_deleted_only.
+
+Theorem C16_local_free_declared_are_disjoint : forall comp evs n,
+  (In n (s_local (classify comp evs)) -> ~ In n (s_free (classify comp evs))) /\
+  (In n (s_global (classify comp evs)) \/ In n (s_nonlocal (classify comp evs)) ->
+   ~ In n (s_local (classify comp evs)) /\ (comp = false -> ~ In n (s_free (classify comp evs)))).
+Proof. exact local_free_declared_disjoint. Qed.
+Print Assumptions C16_local_free_declared_are_disjoint.
+
+Theorem C16_walrus_target_of_a_comprehension_root : forall evs n, In (KWalrus, n) evs ->
+  ~ In n (s_local (classify true evs)) /\
+  (~ In (KStore, n) evs -> In n (s_free (classify true evs))) /\ In n (s_store (classify true evs)).
+Proof. exact walrus_target_of_comprehension_root. Qed.
+Print Assumptions C16_walrus_target_of_a_comprehension_root.
 
 (* non-vacuity: def f(d=D): [w := x for x in IT]  - f is 1; D (2) is outer; the comprehension 3 with first iterable IT (4)
    outer and body (5 = walrus target w, 6 = x) inner *)
